@@ -110,10 +110,10 @@ def zip3 : List String → List String → List String → List CKey
   | k :: ks, n :: ns, s :: ss => ⟨decKind k, n.toList, s.toList⟩ :: zip3 ks ns ss
   | _, _, _ => []
 
-/-- A policy change after `start`: 20 clock seconds pass, then the clusters answer according to the new policy. -/
+/-- A policy change after `start`: 60 clock seconds pass, then the clusters answer according to the new policy. -/
 def policy (d : DState) : DState :=
   if d.started then
-    { d with now := d.now + 20, world := { d.world with clusters := d.specs.map ClusterSpec.toCluster } }
+    { d with now := d.now + 60, world := { d.world with clusters := d.specs.map ClusterSpec.toCluster } }
   else d
 
 /-- A policy op: before `start` it configures (creating the cluster spec if needed); afterwards it applies to
